@@ -97,7 +97,7 @@ theorem canc_step (w : Wiring) {s s' : AState} {σ2 : C02St} {σ : CancelSt} {l 
   · cases l <;> simp [Label.isOpEdge] at hedge
     case begin o h k =>
       simp only [step] at hs
-      obtain ⟨st, hops', hn1, hn2⟩ := stepBegin_newst hs
+      obtain ⟨st, hops', hn1, hn2⟩ := stepBegin_newst_ce hs
       intro r' hr'
       rw [hops'] at hr'
       rcases List.mem_append.mp hr' with hr' | hr'
